@@ -801,16 +801,8 @@ Qed.
 (* 4. the tie to the correspondence cases (Index/ProtoCorr.v)            *)
 (* ================================================================== *)
 
-(* disk_ok as a boolean: evaluated on the start directory of recorded cases *)
-Definition disk_okb (table : list (list Z)) (d : disk) : bool :=
-  match d_fly d with [] => true | _ => false end &&
-  nodupZ (map fst (d_snp d)) &&
-  forallb (fun ef => match loaded_ids table (sf_bytes (snd ef)) with
-                     | Some ids => list_eqbZ ids (map fst (sf_segs (snd ef)))
-                     | None => false
-                     end &&
-                     forallb (fun s => zmem (fst s) (d_seg d)) (sf_segs (snd ef))) (d_snp d) &&
-  forallb (fun eb => negb (loads table (snd eb))) (d_junk_snp d).
+(* disk_okb (the boolean form of disk_ok, evaluated on the start directory of every recorded case) is
+   defined in Index/Proto.v so that the correspondence module does not depend on this proof file *)
 
 Lemma disk_okb_ok : forall table d, disk_okb table d = true -> disk_ok table d.
 Proof.
